@@ -1,5 +1,7 @@
-"""Source translator plug-in (C13 reader tie): `P_xyz.parseLines` (parsers/p_xyz.py) and `P_rawxyz.parseLines`
-(parsers/p_rawxyz.py)  ->  lean/DS/Gen/SrcReaders.lean  (namespace DS.Src.Readers).
+"""Source translator plug-in (C13 reader tie): `P_xyz.parseLines` (parsers/p_xyz.py), `P_rawxyz.parseLines`
+(parsers/p_rawxyz.py), `P_discus.parseLines` with its record helper methods (parsers/p_discus.py; second half of this file,
+class `Discus`, with its own list of conventions) and `P_pdffit.parseLines` with `_parse_shape` (parsers/p_pdffit.py; class
+`Pdffit`, likewise)  ->  lean/DS/Gen/SrcReaders.lean  (namespace DS.Src.Readers).
 
 The method bodies are read with `ast` from the tree under examination (`pysrc.REPO`, read at call time) and emitted,
 statement by statement, as Lean `do` blocks in the vocabulary of DS/Model/Parsers.lean (monad `M = Except Kind`,
@@ -60,7 +62,7 @@ OUTFILE = "SrcReaders.lean"
 
 # `pysrc` is injected by translate/pysrc.py (plugins()); REPO is read at call time.
 
-HEADER = ("-- GENERATED by translate/src_readers.py from src/diffpy/structure/parsers/{p_xyz,p_rawxyz}.py — do not edit\n"
+HEADER = ("-- GENERATED by translate/src_readers.py from src/diffpy/structure/parsers/{p_xyz,p_rawxyz,p_discus,p_pdffit}.py — do not edit\n"
           "import DS.Model.Parsers\nnamespace DS.Src.Readers\nset_option linter.unusedVariables false\nopen DS.Parsers\n\n")
 
 PRELUDE = '''/-- `while v > lo and c(v): v -= 1`, started with fuel `v - lo` (every round decreases `v - lo` by one, and the
@@ -70,6 +72,9 @@ def whileDec (lo : Nat) (c : Nat → M Bool) : Nat → Nat → M Nat
   | n + 1, v => if v > lo then do
       if (← c v) then whileDec lo c n (v - 1) else pure v
     else pure v
+
+/-- `L[i]` for a list of floats of length `len` -/
+def olIdx (len i : Nat) : M Unit := if len ≤ i then raise .IndexError else pure ()
 
 '''
 
@@ -952,6 +957,1106 @@ def translate_parser(fname, clsname, prefix, REPO, hm):
     return text
 
 
+# =====================================================================================================================
+# P_discus.parseLines (parsers/p_discus.py): a parser object with record helper methods, a shared line iterator and a
+# dispatch dictionary.  Conventions in addition to the ones above (trusted base):
+#
+#   abstract document   `DiscusDoc`: per text line a `Line` with `words` = `line.split()`, `cwords` =
+#                       `line.replace(",", " ").split()` (also `" ".join(line.split()).replace(",", " ").split()`), `lat` = the
+#                       outcome of `self.stru.lattice.setLatPar(*[float(w) for w in cwords[1:7]])` on that line (oracle field),
+#                       and `superLat` = the outcome of `Lattice(*superlatpars)` (harness/c13_abs.py `alpha_discus`).
+#   the iterator        `ilines = self._linesIterator()`: the body of `_linesIterator` is compared with the expected text
+#                       (trailing blank lines cut, `self.nl` counted, `self.line` bound) = `stripTrailing Line.blank d.lines`.
+#                       `for self.line in ilines: BODY [else: E]` over the SHARED iterator is a structural recursion over the
+#                       remaining lines: `continue` / end of BODY = the recursive call on the tail, `break` = return of the state
+#                       and of the remaining lines (the next loop over `ilines` continues there), exhaustion = `E`.
+#   parser state        `self.cell_read`, `self.ncell_read` (both `False` in `__init__`, checked) and
+#                       `self.stru.pdffit["ncell"]` (`[1, 1, 1, 0]` in a fresh `PDFFitStructure`, checked in
+#                       pdffitstructure.py) are the fields of `st : DState`; `len(self.stru)` is the counter `n_stru`;
+#                       `self.nl` is an int that is only formatted; other `self.stru.pdffit[<literal>] = v`,
+#                       `self.stru.title = v`, `self.ignored_lines.append(..)`, `a = self.stru.getLastAtom()`,
+#                       `a.Bisoequiv = <float>` evaluate their operands only.
+#   tokens              `w == "<keyword>"` = `w.kw = .<keyword>` (the keywords of `Kw`; any other literal is rejected),
+#                       `w[0] == "#"` = `w.hash`.
+#   helpers             every `_parse_*` method `(self, words)` becomes `discus_<name> v_line v_words st n_stru` returning the
+#                       state; `rp = record_parsers.get(words[0], D); rp(words)` is a `match` on the keyword of `words[0]`
+#                       with one arm per key of the dictionary literal `record_parsers` and the default arm `D`.
+#   numeric blocks      `reduce(lambda x, y: x * y, L, 1)` = `pyProduct true L`; the supercell block (compared with the
+#                       expected text) = `superStep 6 ncell i` for `i in range(3)` (`list(abcABG())` has six entries) followed
+#                       by the oracle `d.superLat.run`; `placeInLattice` of a constructed lattice does not raise.
+# =====================================================================================================================
+
+KWS = ("title", "scale", "sharp", "spcgr", "shape", "cell", "dcell", "ncell", "format", "atoms", "pdffit", "sphere", "stepcut",
+       "generator", "molecule", "symmetry")
+
+
+def _canon(text):
+    return ast.unparse(ast.parse(text))
+
+
+LINESITER_BODY = _canon('''
+stop = len(self.lines)
+while stop > 0 and self.lines[stop - 1].strip() == "":
+    stop -= 1
+self.nl = 0
+for self.line in self.lines[:stop]:
+    self.nl += 1
+    yield self.line
+pass
+''')
+SUPER_BODY = _canon('''
+latpars = list(self.stru.lattice.abcABG())
+superlatpars = [latpars[i] * self.stru.pdffit["ncell"][i] for i in range(3)] + latpars[3:]
+superlattice = Lattice(*superlatpars)
+self.stru.placeInLattice(superlattice)
+self.stru.pdffit["ncell"] = [1, 1, 1, exp_natoms]
+''')
+SUPER_TEST = _canon('self.stru.pdffit["ncell"][:3] != [1, 1, 1]')
+REDUCE_1 = _canon('reduce(lambda x, y: x * y, self.stru.pdffit["ncell"], 1)')
+REDUCE_0 = _canon('reduce(lambda x, y: x * y, self.stru.pdffit["ncell"])')
+STATE_SIG = "(v_line : Line) (v_words : List Tok) (st : DState) (n_stru : Nat)"
+PSTATE_SIG = "(v_line : Line) (st : PState) (n_stru : Nat)"
+
+
+class DVar:
+    def __init__(self, lean, typ, origin=None):
+        self.lean, self.typ, self.origin = lean, typ, origin
+
+
+def is_self_attr(n, *path):
+    """n is `self.a.b…`"""
+    for p in reversed(path):
+        if not (isinstance(n, ast.Attribute) and n.attr == p):
+            return False
+        n = n.value
+    return is_name(n, "self")
+
+
+def is_pdffit_item(n, key=None):
+    return isinstance(n, ast.Subscript) and is_self_attr(n.value, "stru", "pdffit") and isinstance(n.slice, ast.Constant) \
+        and isinstance(n.slice.value, str) and (key is None or n.slice.value == key)
+
+
+class Discus:
+    def __init__(self, cls, hm, prefix="discus"):
+        self.cls, self.hm, self.prefix = cls, hm, prefix
+        self.defs = []           # emitted definitions, in order
+        self.helpers = {}        # method name -> origin of its `words` argument
+        self.ntmp = 0
+        self.nfor = 0
+        self.ntry = 0
+        self.handlers = {}
+        self.ltypes = {}         # python local -> the types of the values ever assigned to it
+
+    def tmp(self, p):
+        self.ntmp += 1
+        return "%s%d" % (p, self.ntmp)
+
+    def method(self, name):
+        fs = [n for n in self.cls.body if isinstance(n, ast.FunctionDef) and n.name == name]
+        if len(fs) != 1:
+            raise pysrc.Untranslatable("method %s defined %d times" % (name, len(fs)))  # noqa: F821
+        f = fs[0]
+        a = f.args
+        if a.vararg or a.kwarg or a.kwonlyargs or a.posonlyargs or a.defaults or f.decorator_list:
+            U(f, "signature")
+        for n in ast.walk(f):
+            if isinstance(n, (ast.Global, ast.Nonlocal, ast.FunctionDef, ast.ClassDef)) and n is not f:
+                U(n, "nested scope / global statement")
+            if isinstance(n, ast.Name) and isinstance(n.ctx, (ast.Store, ast.Del)) and (n.id in PROTECTED or n.id in ("self", "reduce", "Lattice", "PDFFitStructure")):
+                U(n, "rebinding of `%s`" % n.id)
+        return f
+
+    # ---- expressions ---------------------------------------------------------------------------------------------------
+    def ex(self, e, env):
+        """-> (binds, term|None, type, origin)"""
+        if isinstance(e, ast.Constant):
+            if nat_const(e):
+                return [], str(e.value), "N", None
+            if isinstance(e.value, str):
+                return [], None, "S", None
+            if isinstance(e.value, bool):
+                return [], "true" if e.value else "false", "B", None
+            U(e, "constant")
+        if isinstance(e, ast.Name):
+            if e.id not in env:
+                U(e, "name that may be unbound here")
+            v = env[e.id]
+            return [], v.lean, v.typ, v.origin
+        if is_self_attr(e, "line"):
+            return [], "v_line", "LINE", None
+        if is_self_attr(e, "nl"):
+            return [], None, "NL", None
+        if is_self_attr(e, "cell_read"):
+            return [], "st.cellRead", "B", None
+        if is_self_attr(e, "ncell_read"):
+            return [], "st.ncellRead", "B", None
+        if is_pdffit_item(e, "ncell"):
+            return [], "st.ncell", "LI", None
+        if isinstance(e, ast.Subscript):
+            return self.subscript(e, env)
+        if isinstance(e, ast.Call):
+            return self.call(e, env)
+        if isinstance(e, ast.BinOp):
+            if isinstance(e.op, ast.Mod):
+                return self.format(e, env)
+            lb, l, lt, _ = self.ex(e.left, env)
+            rb, r, rt, _ = self.ex(e.right, env)
+            if isinstance(e.op, ast.Add) and lt == "S" and rt == "S":
+                return lb + rb, None, "S", None
+            U(e, "operator on %s, %s" % (lt, rt))
+        if isinstance(e, ast.ListComp):
+            if len(e.generators) != 1 or e.generators[0].ifs or e.generators[0].is_async or not is_name(e.generators[0].target):
+                U(e, "comprehension")
+            var = e.generators[0].target.id
+            ib, it, ity, io = self.ex(e.generators[0].iter, env)
+            el = e.elt
+            if isinstance(el, ast.Call) and not el.keywords and len(el.args) == 1 and is_name(el.args[0], var) and ity == "WL":
+                if is_name(el.func, "float"):
+                    return ib + ["floats %s" % par(it)], None, "OL", ((io or (None, None, None)) + (it,))
+                if is_name(el.func, "int"):
+                    v = self.tmp("l")
+                    return ib + ["let %s ← ints %s" % (v, par(it))], v, "LI", None
+            U(e, "comprehension")
+        U(e, "expression")
+
+    def subscript(self, e, env):
+        bb, base, bt, bo = self.ex(e.value, env)
+        sl = e.slice
+        if isinstance(sl, ast.Slice):
+            if sl.step is not None or not all(x is None or nat_const(x) for x in (sl.lower, sl.upper)):
+                U(e, "slice")
+            lo = sl.lower.value if sl.lower is not None else None
+            hi = sl.upper.value if sl.upper is not None else None
+            if bt in ("T", "S", "LINE"):
+                return bb, None, "S", None
+            if bt in ("WL", "LI"):
+                t = base
+                if hi is not None:
+                    t = "(%s.take %d)" % (t, hi)
+                if lo is not None:
+                    t = "(%s.drop %d)" % (t, lo)
+                return bb, t, bt, ((bo, lo, hi) if bt == "WL" else None)
+            U(e, "slice of a %s" % bt)
+        if not nat_const(sl):
+            U(e, "index that is not a literal")
+        if bt == "T":
+            if sl.value != 0:
+                U(e, "character of a token other than the first")
+            return bb, None, "S", None
+        if bt == "WL":
+            t = self.tmp("t")
+            return bb + ["let %s ← idx %s %d" % (t, base, sl.value)], t, "T", None
+        U(e, "index into a %s" % bt)
+
+    def format(self, e, env):
+        if not (isinstance(e.left, ast.Constant) and isinstance(e.left.value, str)):
+            U(e, "format string")
+        specs = [s for s in re.findall(r"%(?:[-+ #0]*\d*(?:\.\d+)?)([a-zA-Z%])", e.left.value) if s != "%"]
+        args = e.right.elts if isinstance(e.right, ast.Tuple) else [e.right]
+        if len(specs) != len(args):
+            U(e, "format with %d specifiers and %d arguments" % (len(specs), len(args)))
+        binds = []
+        for s, a in zip(specs, args):
+            b, t, ty, _ = self.ex(a, env)
+            binds += b
+            if s in "di" and ty not in ("N", "I", "NL"):
+                U(e, "%%%s argument of type %s" % (s, ty))
+            if s not in "disr" or ty not in ("N", "I", "NL", "S", "T"):
+                U(e, "conversion %%%s of a %s" % (s, ty))
+        return binds, None, "S", None
+
+    def call(self, e, env):
+        f, a = e.func, e.args
+        if e.keywords:
+            U(e, "keyword arguments")
+        text = ast.unparse(e)
+        if text == REDUCE_1 or text == REDUCE_0:
+            v = self.tmp("p")
+            return ["let %s ← pyProduct %s st.ncell" % (v, "true" if text == REDUCE_1 else "false")], v, "I", None
+        if is_name(f, "len") and len(a) == 1 and is_self_attr(a[0], "stru"):
+            return [], "n_stru", "N", None
+        if is_name(f, "float") and len(a) == 1:
+            b, t, ty, _ = self.ex(a[0], env)
+            if ty != "T":
+                U(e, "float() of a %s" % ty)
+            return b + ["pyFloat %s" % par(t)], None, "F", None
+        if is_name(f, "StructureFormatError") and len(a) == 1:
+            b, t, ty, _ = self.ex(a[0], env)
+            if ty != "S":
+                U(e, "exception argument")
+            return b, None, "EXC", None
+        if isinstance(f, ast.Attribute):
+            if ast.unparse(f) == "sys.exc_info" and not a:
+                return [], None, "S", None
+            if ast.unparse(f) == "self.stru.getLastAtom" and not a:
+                return [], None, "ATOM", None
+            if f.attr == "with_traceback" and len(a) == 1:
+                b, t, ty, _ = self.ex(f.value, env)
+                if ty == "EXC":
+                    return b, None, "EXC", None
+            if f.attr == "split" and not a:
+                b, t, ty, o = self.ex(f.value, env)
+                if ty == "LINE":
+                    return b, "%s.words" % t, "WL", ("words" if t == "v_line" else None)
+                if ty == "CLINE":
+                    return b, "%s.cwords" % (o or "v_line"), "WL", ("cwords" if (o or "v_line") == "v_line" else None)
+                U(e, ".split() of a %s" % ty)
+            if f.attr == "replace" and len(a) == 2 and all(isinstance(x, ast.Constant) for x in a) and (a[0].value, a[1].value) == (",", " "):
+                b, t, ty, o = self.ex(f.value, env)
+                if ty in ("LINE", "JLINE"):
+                    return b, None, "CLINE", (t if ty == "LINE" else "v_line")
+                U(e, ".replace() of a %s" % ty)
+            if f.attr == "join" and len(a) == 1 and isinstance(f.value, ast.Constant) and isinstance(f.value.value, str):
+                b, t, ty, o = self.ex(a[0], env)
+                if ty != "WL":
+                    U(e, "join of a %s" % ty)
+                if f.value.value == " " and o == "words":
+                    return b, None, "JLINE", None      # the whitespace-normalised line
+                return b, None, "S", None
+            if f.attr in ("strip", "upper", "lower", "lstrip", "rstrip") and not a:
+                b, t, ty, _ = self.ex(f.value, env)
+                if ty in ("S", "LINE", "T"):
+                    return b, None, "S", None
+                U(e, ".%s() of a %s" % (f.attr, ty))
+        U(e, "call")
+
+    # ---- conditions ----------------------------------------------------------------------------------------------------
+    def cond(self, c, env):
+        if isinstance(c, ast.BoolOp) and len(c.values) == 2:
+            isor = isinstance(c.op, ast.Or)
+            binds, acc = self.cond(c.values[0], env)
+            vb, vt = self.cond(c.values[1], env)
+            if not vb:
+                return binds, "(%s %s %s)" % (acc, "∨" if isor else "∧", vt)
+            cv = self.tmp("c")
+            if isor:
+                binds.append("let %s ← (if %s then pure true else do" % (cv, acc))
+            else:
+                binds.append("let %s ← (if %s then do" % (cv, acc))
+            binds += ["  " + x for x in vb]
+            binds.append("  pure (decide (%s))%s" % (vt, ")" if isor else " else pure false)"))
+            return binds, prop_of_bool(cv)
+        if isinstance(c, ast.UnaryOp) and isinstance(c.op, ast.Not):
+            if isinstance(c.operand, (ast.Compare, ast.BoolOp, ast.UnaryOp)):
+                b, t = self.cond(c.operand, env)
+                return b, "¬(%s)" % t
+            b, t, ty, _ = self.ex(c.operand, env)
+            if ty == "WL":
+                return b, prop_of_bool("%s.isEmpty" % par(t))
+            if ty == "B":
+                return b, "¬(%s)" % prop_of_bool(par(t))
+            U(c, "negation of a %s" % ty)
+        if isinstance(c, ast.Compare) and len(c.ops) == 1:
+            op, l, r = c.ops[0], c.left, c.comparators[0]
+            if ast.unparse(c) == SUPER_TEST:
+                return [], "st.ncell.take 3 ≠ [1, 1, 1]"
+            if isinstance(r, ast.Constant) and isinstance(r.value, str) and isinstance(op, (ast.Eq, ast.NotEq)):
+                # token[0] == "#"  /  token == "<keyword>"
+                if isinstance(l, ast.Subscript) and nat_const(l.slice) and l.slice.value == 0 and r.value == "#":
+                    b, t, ty, _ = self.ex(l.value, env)
+                    if ty == "T":
+                        p = prop_of_bool("%s.hash" % t)
+                        return b, (p if isinstance(op, ast.Eq) else "¬(%s)" % p)
+                b, t, ty, _ = self.ex(l, env)
+                if ty != "T" or r.value not in KWS:
+                    U(c, "comparison of a %s with the string %r" % (ty, r.value))
+                return b, "%s.kw %s .%s" % (t, "=" if isinstance(op, ast.Eq) else "≠", r.value)
+            lb, lt, lty, _ = self.ex(l, env)
+            rb, rt, rty, _ = self.ex(r, env)
+            sym = {ast.Eq: "=", ast.NotEq: "≠"}.get(type(op))
+            if sym and {lty, rty} == {"I", "N"}:
+                lt2 = lt if lty == "I" else "(%s : Int)" % lt
+                rt2 = rt if rty == "I" else "(%s : Int)" % rt
+                return lb + rb, "%s %s %s" % (lt2, sym, rt2)
+            U(c, "comparison of %s and %s" % (lty, rty))
+        b, t, ty, _ = self.ex(c, env)
+        if ty == "B":
+            return b, prop_of_bool(par(t))
+        U(c, "condition")
+
+    # ---- statements ----------------------------------------------------------------------------------------------------
+    def block(self, stmts, env, loop=None, inhelper=False):
+        out = []
+        for k, s in enumerate(stmts):
+            if self.stmt(s, env, out, loop, inhelper):
+                if k != len(stmts) - 1:
+                    U(stmts[k + 1], "statement after raise / return / break / continue")
+                return out, True
+        return out, False
+
+    def assign_local(self, name, term, typ, origin, env, out, node):
+        if name in PROTECTED or name in ("self", "reduce", "Lattice", "PDFFitStructure"):
+            U(node, "rebinding of `%s`" % name)
+        self.ltypes.setdefault(name, set()).add(typ)
+        if term is None:
+            env[name] = DVar(None, typ, origin)
+            return
+        lt = {"WL": "List Tok", "T": "Tok", "LI": "List Int", "I": "Int", "N": "Nat", "B": "Bool"}.get(typ)
+        if lt is None:
+            U(node, "local of type %s" % typ)
+        if name in env and env[name].lean is not None:
+            if env[name].typ != typ:
+                U(node, "`%s` changes its type" % name)
+            out.append("%s := %s" % (env[name].lean, term))
+            env[name] = DVar(env[name].lean, typ, origin)
+        else:
+            out.append("let mut v_%s : %s := %s" % (name, lt, term))
+            env[name] = DVar("v_%s" % name, typ, origin)
+
+    def stmt(self, s, env, out, loop, inhelper):
+        if isinstance(s, ast.Assign) and len(s.targets) == 1:
+            tg = s.targets[0]
+            if isinstance(tg, ast.Tuple) and all(is_name(x) for x in tg.elts) and isinstance(s.value, ast.Call) \
+                    and ast.unparse(s.value) == "sys.exc_info()":
+                for x in tg.elts:
+                    self.assign_local(x.id, None, "S", None, env, out, s)
+                return False
+            if isinstance(tg, ast.Name):
+                b, t, ty, o = self.ex(s.value, env)
+                out += b
+                if ty in ("S", "F", "OL", "EXC", "ATOM", "JLINE", "CLINE", "NL"):
+                    t = None
+                self.assign_local(tg.id, t, ty, o, env, out, s)
+                return False
+            if is_self_attr(tg, "cell_read") or is_self_attr(tg, "ncell_read"):
+                if not (isinstance(s.value, ast.Constant) and isinstance(s.value.value, bool)):
+                    U(s, "value of a state flag")
+                out.append("st := { st with %s := %s }" % ("cellRead" if tg.attr == "cell_read" else "ncellRead", "true" if s.value.value else "false"))
+                return False
+            if is_pdffit_item(tg):
+                b, t, ty, _ = self.ex(s.value, env)
+                out += b
+                if tg.slice.value == "ncell":
+                    if ty != "LI":
+                        U(s, "ncell value of type %s" % ty)
+                    out.append("st := { st with ncell := %s }" % t)
+                elif ty not in ("S", "F"):
+                    U(s, "pdffit value of type %s" % ty)
+                return False
+            if is_self_attr(tg, "stru", "title"):
+                b, t, ty, _ = self.ex(s.value, env)
+                if ty != "S":
+                    U(s, "title of type %s" % ty)
+                out += b
+                return False
+            if isinstance(tg, ast.Attribute) and is_name(tg.value) and tg.value.id in env and env[tg.value.id].typ == "ATOM" and tg.attr == "Bisoequiv":
+                b, t, ty, _ = self.ex(s.value, env)
+                if ty != "F":
+                    U(s, "Bisoequiv of type %s" % ty)
+                out += b
+                return False
+            U(s, "assignment target")
+        if isinstance(s, ast.Expr) and isinstance(s.value, ast.Call):
+            c = s.value
+            text = ast.unparse(c.func)
+            if text == "self.ignored_lines.append" and len(c.args) == 1 and not c.keywords and is_self_attr(c.args[0], "line"):
+                return False
+            if text == "self.stru.addNewAtom" and len(c.args) == 2 and not c.keywords:
+                b1, t1, ty1, _ = self.ex(c.args[0], env)
+                b2, t2, ty2, _ = self.ex(c.args[1], env)
+                if ty1 != "S" or ty2 != "OL":
+                    U(s, "addNewAtom arguments of types %s, %s" % (ty1, ty2))
+                out += b1 + b2
+                out.append("n_stru := n_stru + 1")
+                return False
+            if isinstance(c.func, ast.Attribute) and is_name(c.func.value, "self") and c.func.attr.startswith("_parse") and len(c.args) == 1 \
+                    and not c.keywords:
+                b, t, ty, o = self.ex(c.args[0], env)
+                if ty != "WL" or t not in ("v_words",) or o not in ("words", "cwords"):
+                    U(s, "helper argument")
+                out += b
+                out.append("(st, n_stru) ← %s v_line %s st n_stru" % (self.helper(c.func.attr, o), t))
+                return False
+            if is_name(c.func) and c.func.id in env and env[c.func.id].typ == "DISPATCH" and len(c.args) == 1 and not c.keywords:
+                d = env[c.func.id]
+                b, t, ty, o = self.ex(c.args[0], env)
+                if ty != "WL" or t != "v_words" or o != "words" or d.origin != "v_words":
+                    U(s, "dispatch argument")
+                out += b
+                out += d.lean(o)
+                return False
+            U(s, "call statement")
+        if isinstance(s, ast.If):
+            cb, c = self.cond(s.test, env)
+            out += cb
+            if ast.unparse(s.test) == SUPER_TEST:
+                if s.orelse or "\n".join(ast.unparse(x) for x in s.body) != SUPER_BODY:
+                    U(s, "supercell block differs from the expected text")
+                out.append("if %s then" % c)
+                out += ["  superStep 6 st.ncell 0", "  superStep 6 st.ncell 1", "  superStep 6 st.ncell 2", "  d.superLat.run"]
+                return False
+            ea, eb = dict(env), dict(env)
+            la, ta = self.block(s.body, ea, loop, inhelper)
+            lb, tb = self.block(s.orelse, eb, loop, inhelper) if s.orelse else ([], False)
+            for e2, t2 in ((ea, ta), (eb, tb)):
+                if not t2:
+                    for n, v in e2.items():
+                        if v.lean is not None and (n not in env or env[n].lean != v.lean or env[n].origin != v.origin or env[n].typ != v.typ):
+                            U(s, "`%s` is (re)bound in a branch" % n)
+            out.append("if %s then" % c)
+            out += ["  " + x for x in (la or ["pure ()"])]
+            if lb:
+                out.append("else")
+                out += ["  " + x for x in lb]
+            return ta and tb and bool(s.orelse)
+        if isinstance(s, ast.Try):
+            return self.inner_try(s, env, out)
+        if isinstance(s, ast.Raise):
+            if s.cause is not None or s.exc is None:
+                U(s, "raise form")
+            x = s.exc
+            if isinstance(x, ast.Call) and is_name(x.func) and x.func.id in ("StructureFormatError", "NotImplementedError") and len(x.args) == 1 \
+                    and not x.keywords:
+                b, t, ty, _ = self.ex(x.args[0], env)
+                if ty != "S":
+                    U(s, "exception argument")
+                out += b
+                out.append("raise %s" % (".SFE" if x.func.id == "StructureFormatError" else ".NotImpl"))
+                return True
+            b, t, ty, _ = self.ex(x, env)
+            if ty == "EXC":
+                out += b
+                out.append("raise .SFE")
+                return True
+            U(s, "raise of something that is not a StructureFormatError")
+        if isinstance(s, ast.Return) and s.value is None and inhelper:
+            out.append("return (st, n_stru)")
+            return True
+        if isinstance(s, ast.Continue) and loop:
+            out.append("return (← %s it st n_stru)" % loop[0])
+            return True
+        if isinstance(s, ast.Break) and loop and loop[1]:
+            out.append("return (st, n_stru, it)")
+            return True
+        if isinstance(s, ast.Pass):
+            return False
+        U(s, "statement")
+
+    def handler_kinds(self, h):
+        kinds = []
+        for nm in self.hm.handler_names(h):
+            for k in self.hm.kinds_of(nm):
+                if k not in kinds:
+                    kinds.append(k)
+        return kinds
+
+    def check_handler(self, h, env):
+        if h.name is not None:
+            U(h, "handler that binds the exception")
+        hl, hterm = self.block(h.body, dict(env))
+        if not hterm or hl != ["raise .SFE"]:
+            U(h, "handler body that is not `<build the message>; raise StructureFormatError`")
+
+    def emit_handler(self, name, h):
+        self.defs.append("/-- exception kinds of `except %s` at that `try` (translate/handlers.py `kinds_of`) -/\ndef %s_handler : List Kind := [%s]\n\n" % (
+            ast.unparse(h.type) if h.type is not None else "", name, ", ".join("." + k for k in self.handler_kinds(h))))
+
+    def inner_try(self, s, env, out):
+        """`try: self.stru.lattice.setLatPar(*latpars)  except …: raise StructureFormatError`, latpars = floats of cwords[1:7]"""
+        if s.orelse or s.finalbody or len(s.handlers) != 1 or len(s.body) != 1:
+            U(s, "try statement")
+        b = s.body[0]
+        ok = isinstance(b, ast.Expr) and isinstance(b.value, ast.Call) and ast.unparse(b.value.func) == "self.stru.lattice.setLatPar" \
+            and not b.value.keywords and len(b.value.args) == 1 and isinstance(b.value.args[0], ast.Starred) and is_name(b.value.args[0].value) \
+            and b.value.args[0].value.id in env and env[b.value.args[0].value.id].typ == "OL" \
+            and (env[b.value.args[0].value.id].origin or ())[:3] == ("cwords", 1, 7)
+        if not ok:
+            U(s, "try body that is not `self.stru.lattice.setLatPar(*<floats of the comma-free words[1:7]>)`")
+        self.check_handler(s.handlers[0], env)
+        name = "%s_try%d" % (self.cur, 1)
+        if name in self.handlers:
+            U(s, "second try statement in a helper")
+        self.handlers[name] = True
+        self.emit_handler(name, s.handlers[0])
+        out.append("tryExcept %s_handler (v_line.lat.run)" % name)
+        return False
+
+    cur = ""
+
+    def helper(self, mname, origin):
+        lean = "%s_%s" % (self.prefix, mname)
+        if mname in self.helpers:
+            if self.helpers[mname] != origin:
+                raise pysrc.Untranslatable("%s is called with differently split words" % mname)  # noqa: F821
+            return lean
+        self.helpers[mname] = origin
+        f = self.method(mname)
+        if [x.arg for x in f.args.args] != ["self", "words"]:
+            U(f, "signature")
+        saved, self.cur = self.cur, lean
+        env = {"words": DVar("v_words", "WL", origin)}
+        lines, term = self.block(strip_doc(f.body), env, None, True)
+        self.cur = saved
+        if not term:
+            lines.append("return (st, n_stru)")
+        body = ["let mut st := st", "let mut n_stru := n_stru", "let mut v_words := v_words"] + lines
+        self.defs.append("/-- `%s.%s(words)`, `words` = the %s split of the current line -/\ndef %s %s : M (DState × Nat) := do\n%s\n\n" % (
+            self.cls.name, mname, "comma-free" if origin == "cwords" else "plain", lean, STATE_SIG, "\n".join("  " + x for x in body)))
+        return lean
+
+    def dispatch(self, dict_node, get_call, env):
+        """record_parsers.get(words[0], self.<default>) -> function origin -> lines of a `match`"""
+        keys = []
+        for k, v in zip(dict_node.keys, dict_node.values):
+            if not (isinstance(k, ast.Constant) and isinstance(k.value, str) and k.value in KWS and k.value not in [x for x, _ in keys]):
+                U(dict_node, "dictionary key that is not a distinct keyword")
+            if not (isinstance(v, ast.Attribute) and is_name(v.value, "self")):
+                U(dict_node, "dictionary value that is not a method")
+            keys.append((k.value, v.attr))
+        a = get_call.args
+        if len(a) != 2 or get_call.keywords or not (isinstance(a[1], ast.Attribute) and is_name(a[1].value, "self")):
+            U(get_call, "dispatch")
+        kb, kt, kty, _ = self.ex(a[0], env)
+        if kty != "T" or not (isinstance(a[0], ast.Subscript) and is_name(a[0].value) and env[a[0].value.id].lean == "v_words"):
+            U(get_call, "dispatch key")
+        default = a[1].attr
+
+        def lines(origin):
+            out = []
+            out.append("(st, n_stru) ← match %s.kw with" % kt)
+            for k, m in keys:
+                out.append("  | .%s => %s v_line v_words st n_stru" % (k, self.helper(m, origin)))
+            out.append("  | _ => %s v_line v_words st n_stru" % self.helper(default, origin))
+            return out
+        return kb, lines
+
+    def loop(self, s, env, out, d_env):
+        """`for self.line in ilines: … [else: …]` over the shared iterator"""
+        if not (is_self_attr(s.target, "line") and is_name(s.iter) and s.iter.id in env and env[s.iter.id].typ == "ITER"):
+            U(s, "for statement")
+        self.nfor += 1
+        name = "%s_parseLines_for%d" % (self.prefix, self.nfor)
+        has_break = any(isinstance(n, ast.Break) for n in ast.walk(s))
+        benv = {k: v for k, v in env.items() if v.typ in ("ITER", "DISPATCHDICT")}
+        benv.update(d_env)
+        lines, term = self.block(s.body, benv, (name, has_break), False)
+        if not term:
+            lines.append(name + " it st n_stru")
+        if s.orelse:
+            el, eterm = self.block(s.orelse, {}, None, False)
+            if not eterm:
+                U(s, "else clause that does not raise")
+        else:
+            el = ["pure (st, n_stru, it)" if has_break else "pure (st, n_stru)"]
+            if has_break:
+                el = ["pure (st, n_stru, [])"]
+        ret = "DState × Nat × List Line" if has_break else "DState × Nat"
+        body = ["let mut st := st", "let mut n_stru := n_stru"] + lines
+        self.defs.append("/-- `%s` over the shared line iterator (`continue` = the recursive call, `break` = return of the remaining lines) -/\n"
+                         "def %s : List Line → DState → Nat → M (%s)\n  | [], st, n_stru => do\n%s\n  | v_line :: it, st, n_stru => do\n%s\n\n" % (
+                             " ".join(ast.unparse(s).split("\n")[0].split()), name, ret, "\n".join("    " + x for x in el),
+                             "\n".join("    " + x for x in body)))
+        if has_break:
+            out.append("(st, n_stru, v_%s) ← %s v_%s st n_stru" % (s.iter.id, name, s.iter.id))
+        else:
+            out.append("(st, n_stru) ← %s v_%s st n_stru" % (name, s.iter.id))
+            out.append("v_%s := []" % s.iter.id)
+
+    def main(self, lean_str):
+        cls = self.cls
+        # initial state
+        init = self.method("__init__")
+        itext = [ast.unparse(x) for x in init.body]
+        for want in ("self.cell_read = False", "self.ncell_read = False"):
+            if itext.count(want) != 1:
+                raise pysrc.Untranslatable("__init__ does not contain `%s` exactly once" % want)  # noqa: F821
+        for n in ast.walk(init):
+            if isinstance(n, ast.Attribute) and isinstance(n.ctx, ast.Store) and n.attr in ("cell_read", "ncell_read") \
+                    and ast.unparse(n) not in ("self.cell_read", "self.ncell_read"):
+                U(n, "state flag")
+        it = self.method("_linesIterator")
+        if "\n".join(ast.unparse(x) for x in strip_doc(it.body)) != LINESITER_BODY or [x.arg for x in it.args.args] != ["self"]:
+            raise pysrc.Untranslatable("_linesIterator differs from the expected text")  # noqa: F821
+        fn = self.method("parseLines")
+        if [x.arg for x in fn.args.args] != ["self", "lines"]:
+            U(fn, "signature")
+        body = strip_doc(fn.body)
+        out = ["let mut st : DState := {}", "let mut n_stru : Nat := 0"]
+        env = {}
+        k = 0
+        seen = set()
+        dict_node = None
+        # prologue: self.lines = lines; ilines = self._linesIterator(); self.stru = PDFFitStructure(); record_parsers = {...}
+        while k < len(body) and isinstance(body[k], ast.Assign):
+            s = body[k]
+            text = ast.unparse(s)
+            if text == "self.lines = lines":
+                seen.add("lines")
+            elif len(s.targets) == 1 and is_name(s.targets[0]) and ast.unparse(s.value) == "self._linesIterator()" and "lines" in seen:
+                env[s.targets[0].id] = DVar("v_%s" % s.targets[0].id, "ITER")
+                out.append("let mut v_%s : List Line := stripTrailing Line.blank d.lines" % s.targets[0].id)
+            elif text == "self.stru = PDFFitStructure()":
+                seen.add("stru")
+                out.append("n_stru := 0")
+                out.append("st := { st with ncell := [1, 1, 1, 0] }")
+            elif len(s.targets) == 1 and is_name(s.targets[0]) and isinstance(s.value, ast.Dict):
+                env[s.targets[0].id] = DVar(None, "DISPATCHDICT")
+                dict_node = (s.targets[0].id, s.value)
+            else:
+                break
+            k += 1
+        if "stru" not in seen or len([v for v in env.values() if v.typ == "ITER"]) != 1:
+            U(fn, "prologue of parseLines")
+        rest = body[k:]
+        if len(rest) != 2 or not isinstance(rest[0], ast.Try) or ast.unparse(rest[1]) != "return self.stru":
+            U(fn, "parseLines is not `prologue; try: …; return self.stru`")
+        t = rest[0]
+        if t.orelse or t.finalbody or len(t.handlers) != 1:
+            U(t, "try statement")
+        self.check_handler(t.handlers[0], {})
+        tname = "%s_parseLines_try1" % self.prefix
+        # the try body
+        self.dict_node = dict_node
+        tout = list(out)
+        tenv = dict(env)
+        for s in t.body:
+            if isinstance(s, ast.For):
+                self.loop(s, tenv, tout, {})
+            else:
+                if self.stmt(s, tenv, tout, None, False):
+                    U(s, "the try body ends early")
+        self.emit_handler(tname, t.handlers[0])
+        self.defs.append("/-- body of the `try` at line %d of parseLines (handler: %s), after the prologue `self.lines = lines; ilines = "
+                         "self._linesIterator(); self.stru = PDFFitStructure()` -/\ndef %s (d : DiscusDoc) : M Unit := do\n%s\n  pure ()\n\n" % (
+                             t.lineno, ", ".join(self.hm.handler_names(t.handlers[0])), tname, "\n".join("  " + x for x in tout)))
+        self.defs.append("/-- `%s.parseLines` of parsers/p_discus.py, over the abstract document -/\ndef %s_parseLines (d : DiscusDoc) : M Unit := do\n"
+                         "  tryExcept %s_handler (%s d)\n  return ()\n\n" % (cls.name, self.prefix, tname, tname))
+        return "".join(self.defs)
+
+
+def _discus_stmt_patch():
+    """`rp = record_parsers.get(words[0], self._parse_unknown_record)` binds a dispatch function"""
+    orig = Discus.stmt
+
+    def stmt(self, s, env, out, loop, inhelper):
+        if isinstance(s, ast.Assign) and len(s.targets) == 1 and is_name(s.targets[0]) and isinstance(s.value, ast.Call) \
+                and isinstance(s.value.func, ast.Attribute) and s.value.func.attr == "get" and is_name(s.value.func.value) \
+                and self.dict_node is not None and s.value.func.value.id == self.dict_node[0] and not inhelper:
+            kb, fn = self.dispatch(self.dict_node[1], s.value, env)
+            out += kb
+            env[s.targets[0].id] = DVar(fn, "DISPATCH", "v_words")
+            return False
+        return orig(self, s, env, out, loop, inhelper)
+    Discus.stmt = stmt
+
+
+_discus_stmt_patch()
+
+
+def discus_module_checks(tree, extra=None):
+    origins = {}
+    for n in tree.body:
+        if isinstance(n, ast.ImportFrom):
+            for a in n.names:
+                origins[a.asname or a.name] = "%s.%s" % (n.module, a.name)
+        elif isinstance(n, ast.Import):
+            for a in n.names:
+                origins[a.asname or a.name] = a.name
+        elif isinstance(n, (ast.FunctionDef, ast.ClassDef)):
+            origins[n.name] = "local"
+        elif isinstance(n, ast.Assign):
+            for t in n.targets:
+                for x in ast.walk(t):
+                    if isinstance(x, ast.Name):
+                        origins[x.id] = "local"
+    want = {"StructureFormatError": "diffpy.structure.structureerrors.StructureFormatError", "sys": "sys", "reduce": "functools.reduce",
+            "Lattice": "diffpy.structure.Lattice", "PDFFitStructure": "diffpy.structure.PDFFitStructure"}
+    want.update(extra or {})
+    for k, v in want.items():
+        if origins.get(k) != v:
+            raise pysrc.Untranslatable("`%s` is bound to %r, expected %s" % (k, origins.get(k), v))  # noqa: F821
+    for b in ("len", "int", "float", "str", "list", "range", "NotImplementedError", "iter", "next"):
+        if b in origins:
+            raise pysrc.Untranslatable("the module rebinds the builtin `%s`" % b)  # noqa: F821
+
+
+def translate_discus(REPO, hm):
+    path = os.path.join(REPO, "src", "diffpy", "structure", "parsers", "p_discus.py")
+    try:
+        tree = ast.parse(open(path, encoding="utf-8").read())
+    except (OSError, SyntaxError) as e:
+        raise pysrc.Untranslatable("p_discus.py: %s" % e)  # noqa: F821
+    cls = pysrc.find_class(tree, "P_discus")  # noqa: F821
+    if cls is None:
+        raise pysrc.Untranslatable("class P_discus not found")  # noqa: F821
+    discus_module_checks(tree)
+    check_default_ncell(REPO)
+    return Discus(cls, hm).main(pysrc.lean_str)  # noqa: F821
+
+
+def check_default_ncell(REPO):
+    pf = os.path.join(REPO, "src", "diffpy", "structure", "pdffitstructure.py")
+    try:
+        ptext = ast.unparse(ast.parse(open(pf, encoding="utf-8").read()))
+    except (OSError, SyntaxError) as e:
+        raise pysrc.Untranslatable("pdffitstructure.py: %s" % e)  # noqa: F821
+    if ptext.count("'ncell': [1, 1, 1, 0]") != 1:
+        raise pysrc.Untranslatable("the default pdffit['ncell'] of PDFFitStructure is not [1, 1, 1, 0]")  # noqa: F821
+
+
+# =====================================================================================================================
+# P_pdffit.parseLines (parsers/p_pdffit.py).  Same rendering as for P_discus (class `Discus`), with these differences:
+#
+#   the iterator        `stop = len(lines); while stop > 0 and lines[stop - 1].strip() == "": stop -= 1; ilines = iter(lines[:stop])`
+#                       (compared with the expected text) = `stripTrailing Line.blank d.lines`; `for line in ilines` as for DISCUS;
+#                       a loop whose body calls `next(ilines)` (= `nextLine it`, `StopIteration`) consumes a variable number of
+#                       lines per round and is rendered with the fuel `len(remaining lines) + 1` (every round consumes at least
+#                       the line of the `for`, so the fuel is never exhausted), as `Parsers.pdffitAtoms` is.
+#   parser state        `cell_line_read` = `st.cellRead`, `len(latpars)` = `st.nLatpars`, `stru.pdffit["ncell"]` = `st.ncell`
+#                       (`st : PState`); `stru = self.stru` is an alias; `p_nl` and `line.find(..) + len(..)` are ints that are
+#                       only formatted / used as slice bounds of a string (never raises).
+#   float lists         `L[i]` of a list of floats built from `W` = `olIdx W.length i` (`IndexError`); `len(L)` = `W.length`.
+#   lattice             `stru.lattice = Lattice(*latpars)` = `latticeCtor (len latpars) v_line.lat` (no argument: default lattice;
+#                       fewer than six: `ValueError`; six: the oracle field of the line).
+#   atoms               `numpy.zeros((3, 3), dtype=float)` and stores `U[i, j] = <float>` with literal `i, j < 3`,
+#                       `stru.lattice.isanisotropic(U)`, assignments of floats / float lists / those arrays to attributes of the
+#                       atom just added evaluate their operands only; `addNewAtom(element, xyz=.., occupancy=..)` counts.
+#   `_parse_shape(line)` `assert words[0] == "shape"` on the comma-free split is dropped when the call stands directly under the test
+#                       `words[0] == "shape"` on the plain split (a token equal to a keyword contains no comma, hence it is also
+#                       the first comma-free token).
+# =====================================================================================================================
+
+PD_STRIP = _canon('''
+stop = len(lines)
+while stop > 0 and lines[stop - 1].strip() == "":
+    stop -= 1
+ilines = iter(lines[:stop])
+''')
+PD_SUPER_TEST = _canon('stru.pdffit["ncell"][:3] != [1, 1, 1]')
+PD_SUPER_BODY = _canon('''
+superlatpars = [latpars[i] * stru.pdffit["ncell"][i] for i in range(3)] + latpars[3:]
+superlattice = Lattice(*superlatpars)
+stru.placeInLattice(superlattice)
+stru.pdffit["ncell"] = [1, 1, 1, p_natoms]
+''')
+PD_REDUCE_1 = _canon('reduce(lambda x, y: x * y, stru.pdffit["ncell"], 1)')
+PD_REDUCE_0 = _canon('reduce(lambda x, y: x * y, stru.pdffit["ncell"])')
+PD_SHAPE_GUARD = _canon('words[0] == "shape"')
+PD_ASSERT = _canon('assert words[0] == "shape"')
+ATOM_ATTRS = ("sigxyz", "sigo", "anisotropy", "U", "sigU")
+
+
+class Pdffit(Discus):
+    FLAG = "cell_line_read"
+    LATPARS = "latpars"
+    stru_made = False
+
+    def is_stru(self, n, env):
+        return is_self_attr(n, "stru") or (is_name(n) and n.id in env and env[n.id].typ == "STRU")
+
+    def pd_item(self, n, env, key=None):
+        return isinstance(n, ast.Subscript) and isinstance(n.value, ast.Attribute) and n.value.attr == "pdffit" and self.is_stru(n.value.value, env) \
+            and isinstance(n.slice, ast.Constant) and isinstance(n.slice.value, str) and (key is None or n.slice.value == key)
+
+    def ex(self, e, env):
+        if self.pd_item(e, env, "ncell"):
+            return [], "st.ncell", "LI", None
+        if isinstance(e, ast.BinOp) and isinstance(e.op, ast.Add):
+            snap = self.ntmp
+            lb, l, lt, _ = self.ex(e.left, env)
+            rb, r, rt, _ = self.ex(e.right, env)
+            if lt == "NL" and rt == "NL":
+                return lb + rb, None, "NL", None
+            self.ntmp = snap
+        if isinstance(e, ast.Subscript):
+            if nat_const(e.slice) and is_name(e.value) and e.value.id in env and env[e.value.id].typ == "OL":
+                o = env[e.value.id].origin
+                return ["olIdx %s.length %d" % (par(o[3]), e.slice.value)], None, "F", None
+            if isinstance(e.slice, ast.Slice) and e.slice.step is None and any(x is not None and not nat_const(x) for x in (e.slice.lower, e.slice.upper)):
+                b, t, ty, _ = self.ex(e.value, env)
+                if ty in ("LINE", "S"):
+                    for x in (e.slice.lower, e.slice.upper):
+                        if x is not None and not nat_const(x):
+                            xb, xt, xty, _ = self.ex(x, env)
+                            if xty != "NL" or xb:
+                                U(e, "slice bound")
+                    return b, None, "S", None
+        return Discus.ex(self, e, env)
+
+    def call(self, e, env):
+        f, a = e.func, e.args
+        text = ast.unparse(e)
+        if text in (PD_REDUCE_1, PD_REDUCE_0) and "stru" in env and env["stru"].typ == "STRU":
+            v = self.tmp("p")
+            return ["let %s ← pyProduct %s st.ncell" % (v, "true" if text == PD_REDUCE_1 else "false")], v, "I", None
+        if is_name(f, "len") and len(a) == 1 and not e.keywords:
+            if self.is_stru(a[0], env):
+                return [], "n_stru", "N", None
+            b, t, ty, o = self.ex(a[0], env)
+            if ty == "WL":
+                return b, "%s.length" % par(t), "N", None
+            if ty == "OL" and not b:
+                return b, "%s.length" % par(o[3]), "N", None
+            if ty == "S":
+                return b, None, "NL", None
+            U(e, "len of a %s" % ty)
+        if is_name(f, "next") and len(a) == 1 and not e.keywords and is_name(a[0]) and a[0].id in env and env[a[0].id].typ == "ITER" \
+                and env[a[0].id].lean == "it":
+            r = self.tmp("r")
+            return ["let %s ← nextLine it" % r, "it := %s.2" % r], "%s.1" % r, "LINE", None
+        if text == "numpy.zeros((3, 3), dtype=float)":
+            return [], None, "NDARR", None
+        if isinstance(f, ast.Attribute) and not e.keywords:
+            if f.attr == "isanisotropic" and isinstance(f.value, ast.Attribute) and f.value.attr == "lattice" and self.is_stru(f.value.value, env) \
+                    and len(a) == 1 and is_name(a[0]) and a[0].id in env and env[a[0].id].typ == "NDARR":
+                return [], None, "S", None
+            if f.attr == "find" and len(a) == 1:
+                b, t, ty, _ = self.ex(f.value, env)
+                b2, t2, ty2, _ = self.ex(a[0], env)
+                if ty in ("LINE", "S") and ty2 == "S":
+                    return b + b2, None, "NL", None
+            if f.attr == "getLastAtom" and self.is_stru(f.value, env) and not a:
+                return [], None, "ATOM", None
+        return Discus.call(self, e, env)
+
+    def cond(self, c, env):
+        if isinstance(c, ast.Compare) and len(c.ops) == 1:
+            if ast.unparse(c) == PD_SUPER_TEST:
+                return [], "st.ncell.take 3 ≠ [1, 1, 1]"
+            sym = {ast.Eq: "=", ast.NotEq: "≠", ast.Lt: "<", ast.LtE: "≤", ast.Gt: ">", ast.GtE: "≥"}.get(type(c.ops[0]))
+            r = c.comparators[0]
+            if sym and nat_const(r):
+                snap = self.ntmp
+                lb, lt, lty, _ = self.ex(c.left, env)
+                if lty == "N":
+                    return lb, "%s %s %d" % (par(lt), sym, r.value)
+                self.ntmp = snap
+        return Discus.cond(self, c, env)
+
+    def stmt(self, s, env, out, loop, inhelper):
+        if isinstance(s, ast.Assign):
+            tgs = s.targets
+            if all(isinstance(t, ast.Subscript) and is_name(t.value) and t.value.id in env and env[t.value.id].typ == "NDARR"
+                   and isinstance(t.slice, ast.Tuple) and len(t.slice.elts) == 2 and all(nat_const(x) and x.value < 3 for x in t.slice.elts) for t in tgs):
+                b, t, ty, _ = self.ex(s.value, env)
+                if ty != "F":
+                    U(s, "array element of type %s" % ty)
+                out += b
+                return False
+            if len(tgs) == 1:
+                tg = tgs[0]
+                if is_name(tg):
+                    if tg.id == self.FLAG:
+                        if not (isinstance(s.value, ast.Constant) and isinstance(s.value.value, bool)):
+                            U(s, "value of the state flag")
+                        out.append("st := { st with cellRead := %s }" % ("true" if s.value.value else "false"))
+                        env[tg.id] = DVar("st.cellRead", "B")
+                        return False
+                    if nat_const(s.value) and tg.id in env and env[tg.id].typ == "NL":
+                        return False
+                    if ast.unparse(s.value) == "self.stru" and self.stru_made:
+                        env[tg.id] = DVar(None, "STRU")
+                        return False
+                    if tg.id == self.LATPARS:
+                        b, t, ty, o = self.ex(s.value, env)
+                        if ty != "OL":
+                            U(s, "latpars of type %s" % ty)
+                        out += b
+                        out.append("st := { st with nLatpars := %s.length }" % par(o[3]))
+                        env[tg.id] = DVar(None, "OL", o)
+                        return False
+                if ast.unparse(tg) == "self.stru" and ast.unparse(s.value) == "PDFFitStructure()":
+                    self.stru_made = True
+                    out += ["n_stru := 0", "st := { st with ncell := [1, 1, 1, 0] }"]
+                    return False
+                if self.pd_item(tg, env):
+                    b, t, ty, _ = self.ex(s.value, env)
+                    out += b
+                    if tg.slice.value == "ncell":
+                        if ty != "LI":
+                            U(s, "ncell value of type %s" % ty)
+                        out.append("st := { st with ncell := %s }" % t)
+                    elif ty not in ("S", "F", "OL"):
+                        U(s, "pdffit value of type %s" % ty)
+                    return False
+                if isinstance(tg, ast.Attribute) and self.is_stru(tg.value, env):
+                    if tg.attr == "title":
+                        b, t, ty, _ = self.ex(s.value, env)
+                        if ty != "S":
+                            U(s, "title of type %s" % ty)
+                        out += b
+                        return False
+                    v = s.value
+                    if tg.attr == "lattice" and isinstance(v, ast.Call) and is_name(v.func, "Lattice") and not v.keywords and len(v.args) == 1 \
+                            and isinstance(v.args[0], ast.Starred) and is_name(v.args[0].value, self.LATPARS) and self.LATPARS in env \
+                            and env[self.LATPARS].typ == "OL" and loop:
+                        out.append("latticeCtor %s.length v_line.lat" % par(env[self.LATPARS].origin[3]))
+                        return False
+                if isinstance(tg, ast.Attribute) and is_name(tg.value) and tg.value.id in env and env[tg.value.id].typ == "ATOM" and tg.attr in ATOM_ATTRS:
+                    b, t, ty, _ = self.ex(s.value, env)
+                    if ty not in ("OL", "F", "S", "NDARR"):
+                        U(s, "atom attribute of type %s" % ty)
+                    out += b
+                    return False
+        if isinstance(s, ast.AugAssign) and is_name(s.target) and s.target.id in env and env[s.target.id].typ == "NL" and isinstance(s.op, ast.Add) \
+                and nat_const(s.value):
+            return False
+        if isinstance(s, ast.Assert) and inhelper and ast.unparse(s) == PD_ASSERT and "words" in env and env["words"].origin == "cwords":
+            return False
+        if isinstance(s, ast.Expr) and isinstance(s.value, ast.Call):
+            c = s.value
+            text = ast.unparse(c.func)
+            if text == "self.ignored_lines.append" and len(c.args) == 1 and not c.keywords and is_name(c.args[0]) and c.args[0].id in env \
+                    and env[c.args[0].id].typ == "LINE":
+                return False
+            if isinstance(c.func, ast.Attribute) and c.func.attr == "addNewAtom" and self.is_stru(c.func.value, env) and len(c.args) == 1 \
+                    and [k.arg for k in c.keywords] == ["xyz", "occupancy"]:
+                vals = [self.ex(x, env) for x in (c.args[0], c.keywords[0].value, c.keywords[1].value)]
+                if [v[2] for v in vals] != ["S", "OL", "F"]:
+                    U(s, "addNewAtom arguments")
+                for v in vals:
+                    out += v[0]
+                out.append("n_stru := n_stru + 1")
+                return False
+            if text == "self._parse_shape" and len(c.args) == 1 and not c.keywords and is_name(c.args[0]) and c.args[0].id in env \
+                    and env[c.args[0].id].lean == "v_line" and env[c.args[0].id].typ == "LINE":
+                if self.guards.get(id(s)) != PD_SHAPE_GUARD or "words" not in env or env["words"].origin != "words":
+                    U(s, "_parse_shape is not called directly under `words[0] == \"shape\"`")
+                out.append("(st, n_stru) ← %s v_line st n_stru" % self.helper_line("_parse_shape"))
+                return False
+        if isinstance(s, ast.If) and ast.unparse(s.test) == PD_SUPER_TEST:
+            if s.orelse or "\n".join(ast.unparse(x) for x in s.body) != PD_SUPER_BODY or loop or inhelper:
+                U(s, "supercell block differs from the expected text")
+            out.append("if st.ncell.take 3 ≠ [1, 1, 1] then")
+            out += ["  superStep st.nLatpars st.ncell 0", "  superStep st.nLatpars st.ncell 1", "  superStep st.nLatpars st.ncell 2", "  d.superLat.run"]
+            return False
+        return Discus.stmt(self, s, env, out, loop, inhelper)
+
+    def helper_line(self, mname):
+        lean = "%s_%s" % (self.prefix, mname)
+        if mname in self.helpers:
+            return lean
+        self.helpers[mname] = "line"
+        f = self.method(mname)
+        if [x.arg for x in f.args.args] != ["self", "line"]:
+            U(f, "signature")
+        saved, self.cur = self.cur, lean
+        env = {"line": DVar("v_line", "LINE")}
+        lines, term = self.block(strip_doc(f.body), env, None, True)
+        self.cur = saved
+        if not term:
+            lines.append("return (st, n_stru)")
+        body = ["let mut st := st", "let mut n_stru := n_stru"] + lines
+        self.defs.append("/-- `%s.%s(line)` -/\ndef %s %s : M (PState × Nat) := do\n%s\n\n" % (
+            self.cls.name, mname, lean, PSTATE_SIG, "\n".join("  " + x for x in body)))
+        return lean
+
+    def loop(self, s, env, out, after):
+        if not (is_name(s.target) and is_name(s.iter) and s.iter.id in env and env[s.iter.id].typ == "ITER" and s.target.id not in PROTECTED):
+            U(s, "for statement")
+        self.nfor += 1
+        name = "%s_parseLines_for%d" % (self.prefix, self.nfor)
+        has_break = any(isinstance(n, ast.Break) for n in ast.walk(s))
+        uses_next = any(isinstance(n, ast.Call) and is_name(n.func, "next") for n in ast.walk(s))
+        if uses_next and (has_break or s.orelse):
+            U(s, "loop with next() and break / else")
+        stored = {n.id for n in ast.walk(s) if isinstance(n, ast.Name) and isinstance(n.ctx, ast.Store)}
+        for n in ast.walk(s):          # comprehension variables are local to the comprehension
+            if isinstance(n, ast.comprehension):
+                stored -= {x.id for x in ast.walk(n.target) if isinstance(x, ast.Name)}
+        benv = {k: v for k, v in env.items() if v.lean is None or v.lean.startswith("st.")}
+        benv[s.iter.id] = DVar("it", "ITER")
+        benv[s.target.id] = DVar("v_line", "LINE")
+        call = "%s fuel" % name if uses_next else name
+        lines, term = self.block(s.body, benv, (call, has_break), False)
+        if not term:
+            lines.append(call + " it st n_stru")
+        for n in stored & after:
+            # strings have no term and reading them cannot raise; the flag and the length of latpars are fields of `st`
+            if n not in (self.FLAG, self.LATPARS) and not (n in env and env[n].typ == "NL") and self.ltypes.get(n) != {"S"}:
+                U(s, "`%s` is bound inside the loop and read after it" % n)
+        if s.orelse:
+            el, eterm = self.block(s.orelse, {k: v for k, v in env.items() if v.lean is None}, None, False)
+            if not eterm:
+                U(s, "else clause that does not raise")
+        else:
+            el = ["pure (st, n_stru, [])" if has_break else "pure (st, n_stru)"]
+        ret = "PState × Nat × List Line" if has_break else "PState × Nat"
+        body = ["let mut st := st", "let mut n_stru := n_stru"] + (["let mut it := it"] if uses_next else []) + lines
+        doc = " ".join(ast.unparse(s).split("\n")[0].split())
+        if uses_next:
+            self.defs.append("/-- `%s` over the shared line iterator, the body calls `next(%s)`: fuel = number of remaining lines + 1 -/\n"
+                             "def %s : Nat → List Line → PState → Nat → M (%s)\n  | 0, _, st, n_stru => pure (st, n_stru)\n"
+                             "  | _, [], st, n_stru => do\n%s\n  | fuel + 1, v_line :: it, st, n_stru => do\n%s\n\n" % (
+                                 doc, s.iter.id, name, ret, "\n".join("    " + x for x in el), "\n".join("    " + x for x in body)))
+        else:
+            self.defs.append("/-- `%s` over the shared line iterator (`continue` = the recursive call, `break` = return of the remaining lines) -/\n"
+                             "def %s : List Line → PState → Nat → M (%s)\n  | [], st, n_stru => do\n%s\n  | v_line :: it, st, n_stru => do\n%s\n\n" % (
+                                 doc, name, ret, "\n".join("    " + x for x in el), "\n".join("    " + x for x in body)))
+        it = "v_%s" % s.iter.id
+        if has_break:
+            out.append("(st, n_stru, %s) ← %s %s st n_stru" % (it, name, it))
+        else:
+            out.append("(st, n_stru) ← %s %s%s st n_stru" % (name, "(%s.length + 1) " % it if uses_next else "", it))
+            out.append("%s := []" % it)
+        if self.LATPARS in benv:
+            env[self.LATPARS] = DVar(None, "OL", benv[self.LATPARS].origin)
+
+    def main(self, lean_str):
+        fn = self.method("parseLines")
+        if [x.arg for x in fn.args.args] != ["self", "lines"]:
+            U(fn, "signature")
+        body = strip_doc(fn.body)
+        if len(body) != 3 or ast.unparse(body[0]) != "p_nl = 0" or not isinstance(body[1], ast.Try) \
+                or ast.unparse(body[2]) not in ("return stru", "return self.stru"):
+            U(fn, "parseLines is not `p_nl = 0; try: …; return stru`")
+        self.guards = {}
+        for n in ast.walk(self.cls):
+            if isinstance(n, ast.If):
+                for st in n.body:
+                    self.guards[id(st)] = ast.unparse(n.test)
+        t = body[1]
+        if t.orelse or t.finalbody or len(t.handlers) != 1:
+            U(t, "try statement")
+        env = {"p_nl": DVar(None, "NL")}
+        self.check_handler(t.handlers[0], env)
+        tname = "%s_parseLines_try1" % self.prefix
+        tout = ["let mut st : PState := {}", "let mut n_stru : Nat := 0"]
+        stmts = t.body
+        k = 0
+        while k < len(stmts):
+            s = stmts[k]
+            if "\n".join(ast.unparse(x) for x in stmts[k:k + 3]) == PD_STRIP and "ilines" not in env:
+                env["ilines"] = DVar("v_ilines", "ITER")
+                tout.append("let mut v_ilines : List Line := stripTrailing Line.blank d.lines")
+                k += 3
+                continue
+            if isinstance(s, ast.For):
+                after = set()
+                for x in stmts[k + 1:]:
+                    loads = {n.id for n in ast.walk(x) if isinstance(n, ast.Name) and isinstance(n.ctx, ast.Load)}
+                    if isinstance(x, ast.For) and is_name(x.target):
+                        loads.discard(x.target.id)       # rebound by that loop before it is read
+                    after |= loads
+                self.loop(s, env, tout, after)
+            elif self.stmt(s, env, tout, None, False):
+                U(s, "the try body ends early")
+            k += 1
+        if "stru" not in env or env["stru"].typ != "STRU":
+            U(fn, "`stru = self.stru` not found")
+        self.emit_handler(tname, t.handlers[0])
+        self.defs.append("/-- body of the `try` at line %d of parseLines (handler: %s) -/\ndef %s (d : PdffitDoc) : M Unit := do\n%s\n  pure ()\n\n" % (
+            t.lineno, ", ".join(self.hm.handler_names(t.handlers[0])), tname, "\n".join("  " + x for x in tout)))
+        self.defs.append("/-- `%s.parseLines` of parsers/p_pdffit.py, over the abstract document -/\ndef %s_parseLines (d : PdffitDoc) : M Unit := do\n"
+                         "  tryExcept %s_handler (%s d)\n  return ()\n\n" % (self.cls.name, self.prefix, tname, tname))
+        return "".join(self.defs)
+
+
+def translate_pdffit(REPO, hm):
+    path = os.path.join(REPO, "src", "diffpy", "structure", "parsers", "p_pdffit.py")
+    try:
+        tree = ast.parse(open(path, encoding="utf-8").read())
+    except (OSError, SyntaxError) as e:
+        raise pysrc.Untranslatable("p_pdffit.py: %s" % e)  # noqa: F821
+    cls = pysrc.find_class(tree, "P_pdffit")  # noqa: F821
+    if cls is None:
+        raise pysrc.Untranslatable("class P_pdffit not found")  # noqa: F821
+    discus_module_checks(tree, {"numpy": "numpy"})
+    check_default_ncell(REPO)
+    return Pdffit(cls, hm, "pdffit").main(pysrc.lean_str)  # noqa: F821
+
+
 def translate(report):
     REPO = pysrc.REPO  # noqa: F821  (injected; read at call time)
     lean_str = pysrc.lean_str  # noqa: F821
@@ -967,6 +2072,17 @@ def translate(report):
             info["untranslatable"][name] = str(e)
             out.append("def %s_untranslatable : String := %s\n\n" % (name, lean_str(str(e))))
         except Exception as e:  # noqa: BLE001  (never crash: an unexpected shape is an untranslatable one)
+            msg = "internal %s: %s" % (type(e).__name__, e)
+            info["untranslatable"][name] = msg
+            out.append("def %s_untranslatable : String := %s\n\n" % (name, lean_str(msg)))
+    for name, fn in (("discus_parseLines", translate_discus), ("pdffit_parseLines", translate_pdffit)):
+        try:
+            out.append(fn(REPO, hm))
+            info["methods"][name] = True
+        except pysrc.Untranslatable as e:  # noqa: F821
+            info["untranslatable"][name] = str(e)
+            out.append("def %s_untranslatable : String := %s\n\n" % (name, lean_str(str(e))))
+        except Exception as e:  # noqa: BLE001
             msg = "internal %s: %s" % (type(e).__name__, e)
             info["untranslatable"][name] = msg
             out.append("def %s_untranslatable : String := %s\n\n" % (name, lean_str(msg)))
